@@ -42,7 +42,7 @@ EFUN_COVERED = {
     "copy": "sameSize", "sort_array": "sameSize", "map": "sameSize", "map_array": "sameSize", "map_mapping": "sameSize",
     "lower_case": "sameSize", "upper_case": "sameSize", "capitalize": "sameSize",
     "filter": "partOf", "filter_array": "partOf", "filter_mapping": "partOf", "unique_array": "partOf",
-    "unique_mapping": "partOf (at most one key per element, inserted through find_for_insert: mapInsert)",
+    "unique_mapping": "uniqueMapping (one key per distinct callback result; `numkeys > MAX` test before the mapping is built - fix 115d78e; the mapping is filled without find_for_insert)",
     "save_variable": "saveVariable (Save.lean: svalue_save_size over the value tree, then the MaxStringLength test)",
     "restore_variable": "restoreArray / restoreMapping (allocate_array (size) and the ++count test of restore_mapping; strings are pieces of the text)",
     "regexp": "matchRegexp (allocate_empty_array (num_match << flag))",
@@ -141,6 +141,7 @@ SITES = [
     ("restoreDepthGuard", "lib/lpc/object.c", r"static int restore_internal_size \(char \*\*str, int is_mapping, int depth, int nesting\) \{.{0,200}?if \(nesting > MAX_SAVE_SVALUE_DEPTH\)" + W + r"return 0;", 1, None),
     ("restoreDepthDescends", "lib/lpc/object.c", r"restore_internal_size \(str, [01], save_svalue_depth\+\+, nesting \+ 1\)", 3, None),
     ("restoreDepthTop", "lib/lpc/object.c", r"restore_internal_size \(str, [01], save_svalue_depth\+\+, (\d+)\)", 3, "restoreTopNesting"),
+    ("uniqueMappingGuard", "lib/lpc/mapping.c", r"if \(numkeys > CONFIG_INT \(__MAX_MAPPING_SIZE__\)\)" + W + r"mapping_too_large \(\);" + W + r"m = allocate_mapping \(nmask = numkeys << 1\);", 1, None),
     ("regexpAlloc", "lib/lpc/array.c", r"flag &= 1;" + W + r"ret = allocate_empty_array \(num_match << flag\);", 1, None),
     ("regAssocAlloc", "lib/lpc/array.c", r"allocate_empty_array \(2 \* num_match \+ 1\)", 2, None),
     ("restoreArrayAlloc", "lib/lpc/object.c", r"size = restore_size \(str, 0\)\) < 0\)" + W + r"return ROB_ARRAY_ERROR;" + W + r"v = allocate_array \(size\);", 1, None),
@@ -629,13 +630,14 @@ class C04(Prop):
                 "NV.C04.bridge_stackSlack", "NV.C04.bridge_depthTest", "NV.C04.bridge_clamp", "NV.C04.bridge_safeTick",
                 "NV.C04.bridge_esBits", "NV.C04.bridge_widths",
                 "NV.C04.sizes_bounded_round4", "NV.C04.compose_count_exact", "NV.C04.save_depth_bounded", "NV.C04.restore_depth_bounded",
-                "NV.C04.loop_iterations_charged", "NV.C04.bridge_backwardOps", "NV.C04.bridge_saveWalk", "NV.C04.bridge_casts",
+                "NV.C04.loop_iterations_charged", "NV.C04.loop_ends_within_budget", "NV.C04.bridge_backwardOps", "NV.C04.bridge_saveWalk", "NV.C04.bridge_casts",
                 "NV.C04.bridge_refills", "NV.C04.refill_rules_sound", "NV.C04.regex_charge_bounded"]
     witness_theorems = ["NV.C04.eval_unbounded_at_zero_budget", "NV.C04.eval_bound_attained_through_safe_apply",
                         "NV.C04.sprintf_exceeds_small_limit", "NV.C04.array_size_wraps",
                         "NV.C04.buffer_size_wraps", "NV.C04.repeat_string_old_wraps",
                         "NV.C04.compose_count_wraps_16", "NV.C04.save_variable_old_exceeds",
-                        "NV.C04.handler_lost_limit_state_before_fix", "NV.C04.handler_early_restore_loses_state"]
+                        "NV.C04.handler_lost_limit_state_before_fix", "NV.C04.handler_early_restore_loses_state",
+                        "NV.C04.unique_mapping_old_exceeds"]
     consts = CONSTS
     const_headers = ["src/interpret.h", "lib/rc/rc.h", "lib/lpc/include/runtime_config.h", "lpc/array.h", "lpc/buffer.h",
                      "lpc/mapping.h", "src/stralloc.h", "src/backend.h"]
@@ -652,14 +654,14 @@ class C04(Prop):
                   "model_satisfies_spec: every clause the oracle applies to one evaluation (no limit error swallowed, instructions <= "
                   "budget + allowance, depth, stack incl. slots written between fetches, both stacks unwound, nothing completes after an "
                   "expiry) is empty on every model run; (2) a byte-code level machine of eval_instruction's loop: backward jumps + calls + "
-                  "callbacks <= ticks <= budget for every program and branch oracle, with the charge of a fetch built from facts regenerated "
+                  "callbacks <= ticks <= budget for every program and branch oracle, and no run stays running for `budget` turns, with the charge of a fetch built from facts regenerated "
                   "from src/interpret.c (test before the dispatch, no goto, list of backward-branch opcodes); (3) the size decision of every "
                   "array / buffer / mapping / string constructor incl. mapping * mapping, save_variable / restore_variable, regexp, "
                   "reg_assoc for all operand sizes and int64 arguments - szCmd_satisfies_spec: the size clause never fires on the model's "
                   "answer to any constructor command; (4) the depth-limited value walks (svalue_save_size, copy) for every value; "
                   "(5) mapping count = nodes across inserts, partially applied `+=` and in-place `*=`; (6) every statement that writes eval_cost "
                   "or the configured budget, regenerated as an inventory and justified by a rule table; regexp matching charged against the budget.  Tied to the source by regenerated "
-                  "constants, 63 guard sites, the opcode lists, the refill inventory, and by running generated LPC programs and constructor calls on the real "
+                  "constants, 64 guard sites, the opcode lists, the refill inventory, and by running generated LPC programs and constructor calls on the real "
                   "driver under small limits; the Lean oracle judges every implementation trace")
     level_note = ("trusted: Lean kernel; extract.py; props/c04.py as the translator from a shape term to LPC source and as the "
                   "(regex / brace-matching) reader of the guard sites and of eval_instruction's switch; the correspondence harness "
@@ -935,6 +937,10 @@ class C04(Prop):
         for conf in ("noeh-locals", "eh-locals", "noeh-both", "eh-args"):
             B.append(self.mk("b-%s-rec-locals-stack" % conf, Q(R(20, 3), W(5)), depth=150, stack=300, conf=conf, argkind="str"))
             B.append(self.mk("b-%s-rec-cbargs-stack" % conf, R(12, 4), depth=150, stack=200, conf=conf, argkind="arr"))
+        # consecutive budgets: for some of them the tick that uses the budget up is the callback's own tick (call_efun_callback),
+        # not an instruction's - the expiry must be raised there as well
+        for c in range(300, 312):
+            B.append(self.mk("b-cb-align-%d" % c, Q(Bk(60, W(2, 1)), S), cost=c))
         # callbacks whose work adds up to more than the budget: the expiry comes inside one of them
         B.append(self.mk("b-cb-overbudget-map", Q(Bk(40, W(60)), W(5)), cost=2000))
         B.append(self.mk("b-cb-overbudget-filter", C(Bk(60, W(25, 1), 1)), cost=2000))
@@ -1036,6 +1042,13 @@ class C04(Prop):
         # regexp backtracking is charged against the budget: far below / far above what 100 node visits per tick allow
         for cost, n in ((20000, 3), (20000, 12), (20000, 45), (20000, 60), (5000, 40), (5000, 200), (1000000, 10)):
             B.append(self.rx_case("b-rx-%d-%d" % (cost, n), cost, n))
+        # repaired: unique_mapping respects MaxMappingSize (reachable when MaxArraySize is the larger limit)
+        B.append(self.sizes_case("b-sz-unique-mapping", {"array": 300, "mapping": 100},
+                                 ["unique_mapping 200 50", "unique_mapping 200 100", "unique_mapping 200 101", "unique_mapping 200 0",
+                                  "unique_mapping 100 0", "unique_mapping 0 0", "unique_mapping 301 5"]))
+        B.append(self.sizes_case("b-sz-save-nested-map", {"string": 1000},
+                                 ["save_nested_map 1", "save_nested_map 25", "save_nested_map 26", "save_nested_map 27", "save_nested_map 2",
+                                  "save_depth 25", "save_depth 26", "save_depth 40", "save_depth_map 25", "save_depth_map 26", "save_depth_map 1"]))
         B.append(self.mapseq_case("b-map-compose", 20, ["a100:15:15", "c105:5:5", "i300n", "cs:6", "a400:20:20", "c0:0:0", "i1n", "a500:19:19", "i2n"]))
         return B
 
@@ -1129,9 +1142,14 @@ class C04(Prop):
                               ("join_self", 2), ("join_num", 1), ("num_join", 1), ("repeat", 5), ("implode", 3),
                               ("replace", 3), ("replace1", 2), ("sprintf", 1), ("derived", 6), ("round4", 7)])
             if k == "round4":
-                d = rng.choice(["map_compose", "map_compose_eq", "save_array", "save_string", "save_mapping", "save_nested",
+                d = rng.choice(["unique_mapping", "save_nested_map", "map_compose", "map_compose_eq", "save_array", "save_string", "save_mapping", "save_nested",
                                 "copy_nested", "restore_nested", "restore_array", "restore_mapping", "regexp", "reg_assoc"])
-                if d in ("map_compose", "map_compose_eq"):
+                if d == "unique_mapping":
+                    n_ = min(near(la, False), la + 1, 2000)
+                    cmds.append("unique_mapping %d %d" % (n_, rng.choice([0, 1, lm - 1, lm, lm + 1, n_ // 2, n_])))
+                elif d == "save_nested_map":
+                    cmds.append("%s %d" % (rng.choice(["save_nested_map", "save_depth", "save_depth_map"]), rng.choice([1, 2, 10, 24, 25, 26, 27, 40])))
+                elif d in ("map_compose", "map_compose_eq"):
                     c1, c2 = rng.range(0, lm), rng.range(0, lm)
                     cmds.append("%s %d %d %d" % (d, c1, c2, rng.choice([0, 1, min(c1, c2) // 2, min(c1, c2)])))
                 elif d == "save_array":
